@@ -130,6 +130,12 @@ func ZZHarnessStream() {
 			head = zzConcretizeU64(head + zzNondetRange("headInc", 0, 2))
 			zzAssume(head <= zzMaxBlock-2)
 			zzHeads <- &ethtypes.Header{Number: new(big.Int).SetUint64(head)}
+		case 2: // a head BELOW the highest one seen so far (a lagging node after a reconnect, a re-organisation)
+			low := zzConcretizeU64(zzNondetRange("headLow", 0, 2))
+			if head >= low+1 {
+				zzHeads <- &ethtypes.Header{Number: new(big.Int).SetUint64(head - low - 1)}
+				zzReach("lower-head")
+			}
 		case 1: // the subscription breaks
 			if subErrs < 1 {
 				subErrs++
@@ -139,8 +145,12 @@ func ZZHarnessStream() {
 		}
 		drain()
 	}
+	nk := 2
+	if zzParam("LOWHEADS") == 1 {
+		nk = 3
+	}
 	for s := 0; s < k; s++ {
-		step(zzChoose("event", 2))
+		step(zzChoose("event", nk))
 	}
 	// eventually healthy: keep announcing the current head until a head was processed after the last fault
 	for round := 0; round < 3; round++ {
